@@ -48,6 +48,8 @@ def field_run(ctx, wd, p, d, what, invs, prop, module='FieldFuncs'):
     res = tlc.run_tlc(f'MCFF_{tag}', cfg, workdir=wd, env={'TRACE_FILE': tf}, timeout=3000, cont=True)
     ctx.add_tlc(res, f'{module}[GF({p}^{d})]')
     ctx.traces += len(evs)
+    if res.generated < len(evs):
+        raise tlc.TLCError(f'not all events were evaluated by TLC: {res.generated} < {len(evs)}')
     for e in evs:
         ctx.case((p, d, e['fn'], e['a'], str(e['vals'])))
     if not res.ok and not res.all_violations:
